@@ -9,6 +9,7 @@ CFG = {
     'B_SO2_d': 25, 'B_R9_d': 26, 'B_SE2x3_d': 27, 'B_SO2_SGal3_SO2_d': 28, 'B_7elems_d': 29,
     'B_SE3_SO2_R3_f': 31,
     'SO2r': 41, 'SE2r': 42, 'SO3r': 43, 'SE3r': 44, 'SE_2_3r': 45, 'SGal3r': 46, 'R3r': 47, 'B_SE3_SO2_R3_SE2_SE23_r': 48, 'B_SGal3_SO3_r': 49,
+    'SO2j': 61, 'SE2j': 62, 'SO3j': 63, 'SE3j': 64, 'SE_2_3j': 65, 'SGal3j': 66, 'R3j': 67, 'B_SE3_SO2_R3_j': 68,
 }
 
 CXX = os.environ.get('VF_CXX', 'g++')
